@@ -149,6 +149,9 @@ def run(facts, rep, tier, ctx):
     for w_ in (ws, wa_):
         if w_.present():
             c07.physical_gate(facts, _P(rep, ("A/" if w_.asyncw else "") + "R02.5"), w_, D0)
+    # R02.6 "started on an empty filesystem": however an in-memory filesystem is constructed, it starts as an existing, empty root
+    from . import c03
+    c03.root_rules(facts, rep, "R02.6")
     # R02.3 Table P is backend independent
     pr = PathRules(facts, ws)
     pr.table_p(rep, "R02.3")
@@ -159,7 +162,8 @@ def run(facts, rep, tier, ctx):
     from ..panics import Discharger, load_records
     D = Discharger(facts, load_records(os.path.join(ctx["V"], "rules", "panic_records.json")))
     h = Handles(facts, False, D)
-    k = h.seek_rules(rep, "R02.4", "R02.4") + h.read_rules(rep, "R02.4") + h.writer_rules(rep, "R02.4", "R02.4", "R02.4t")
+    k = h.seek_rules(rep, "R02.4", "R02.4") + h.read_rules(rep, "R02.4") + h.writer_rules(rep, "R02.4", "R02.4", "R02.4t") + \
+        h.handle_surface_rules(rep, "R02.4")
     rep.floor("in-memory handle obligations", k, 23)
     wa = World(facts, True)
     rep.ob("R02.A", "async_vfs", "async world present", wa.present(), "", "")
@@ -167,7 +171,8 @@ def run(facts, rep, tier, ctx):
         from .c10 import _Prefixed
         A = _Prefixed(rep, "A")
         ha = Handles(facts, True, D)
-        k = ha.seek_rules(A, "R02.4", "R02.4") + ha.read_rules(A, "R02.4") + ha.writer_rules(A, "R02.4", "R02.4", "R02.4t")
+        k = ha.seek_rules(A, "R02.4", "R02.4") + ha.read_rules(A, "R02.4") + ha.writer_rules(A, "R02.4", "R02.4", "R02.4t") + \
+            ha.handle_surface_rules(A, "R02.4")
         k += physrules.table_o_shape(facts, A, "R02.2p", wa)
         rep.floor("async in-memory handle / physical obligations", k, 40)
     rep.assume("Table O is what Linux/POSIX enforce for the std calls; O_APPEND seek semantics are excluded by the property")
